@@ -94,6 +94,30 @@ def str_case():
     ).map(lambda s: {'kind': 'str', 's': s})
 
 
+FOREIGN = ''.join(ch for ch in PRINTABLE[:95] if ch not in fnum.NUMERIC_ALPHABET)
+
+
+@st.composite
+def corrupted_case(draw):
+    """a well-formed Fortran rendering in which ONE character is replaced by, or one position receives, a character that
+    cannot occur in a number - at a drawn position, and on purpose where the exponent letter is or would be"""
+    base = draw(real_case())
+    s = base['s']
+    ch = draw(st.sampled_from(FOREIGN))
+    spots = [i for i, c in enumerate(s) if c in 'eEdD']
+    if not spots:
+        spots = [i for i, c in enumerate(s) if c in '+-' and i > 0 and s[:i].strip(' +-') != '']    # sign of a letter-less exponent
+    where = draw(st.sampled_from(['exponent', 'exponent', 'anywhere']))
+    if where == 'exponent' and spots:
+        i = spots[-1]
+        s2 = s[:i] + ch + s[i + 1:] if s[i] in 'eEdD' else s[:i] + ch + s[i:]
+    else:
+        i = draw(st.integers(0, len(s)))
+        s2 = (s[:i] + ch + s[i + 1:]) if draw(st.booleans()) and i < len(s) else (s[:i] + ch + s[i:])
+        where = 'anywhere'
+    return {'kind': 'str', 's': s2, 'corrupted': where}
+
+
 def enum_strings(maxlen):
     def g():
         for n in range(0, maxlen + 1):
@@ -109,6 +133,7 @@ def searches(tier):
         Search('int_renderings', 'hyp', int_case, n=2000 if q else 100000, shards=2 if q else 16),
         Search('strings', 'hyp', str_case, n=6000 if q else 400000, shards=4 if q else 16),
         Search('enum_short_strings', 'enum', enum_strings(4 if q else 5), shards=8 if q else 16),
+        Search('one_foreign_character', 'hyp', corrupted_case, n=6000 if q else 300000, shards=4 if q else 16),
     ]
 
 
@@ -175,9 +200,18 @@ def run_case(case, R):
             else:
                 R.check(isinstance(v, float) or v is bv, 'str:real:other',
                         'fortran_float(%r) = %r is not a float' % (s, v))
-        v = _call(R, fff.fortran_read_float, s)
-        if v != 'RAISED' and k[0] == 'blank':
-            R.check(v is None, 'str:read_float:blank', 'fortran_read_float(%r) = %r' % (s, v))
+        if case.get('corrupted'): R.label('one-foreign-character:' + case['corrupted'])
+        # the readers as the format tables use them (what t2incon / t2data are handed): same answers, blank -> None
+        for nm, f in (('fortran_read_float', fff.fortran_read_float), ("fortran_read_function['e']", fff.fortran_read_function['e']),
+                      ("fortran_read_function['f']", fff.fortran_read_function['f']), ("fortran_read_function['g']", fff.fortran_read_function['g'])):
+            v = _call(R, f, s)
+            if v == 'RAISED': continue
+            if k[0] == 'blank':
+                R.check(v is None, 'str:read_float:blank', '%s(%r) = %r' % (nm, s, v))
+            elif k[0] in ('python', 'fortran'):
+                R.check(isinstance(v, float) and fnum.same_float(v, k[1]), 'str:read_float:' + k[0], '%s(%r) = %r, expected %r' % (nm, s, v, k[1]))
+            elif k[0] == 'nan':
+                R.check(isinstance(v, float) and math.isnan(v), 'str:read_float:nan', '%s(%r) = %r, expected nan' % (nm, s, v))
         # ints
         ki = fnum.classify_int(s)
         R.label('intclass:' + ki[0])
